@@ -175,7 +175,7 @@ def indexGet (h : Heap) (v idx : Val) : Got :=
   | .undef => .val .undef                                   -- Undefined.IndexGet
   | .int _ => .err .notIndexable
   | .str _ => .bad                                          -- chars are outside the model
-  | .opq _ => .bad
+  | .opq t => if t.startsWith "(y" then .bad else .err .notIndexable   -- only bytes are indexable
   | .ref r =>
     match h.obj r with
     | .arr _ s off len _ =>
@@ -199,6 +199,32 @@ def indexGet (h : Heap) (v idx : Val) : Got :=
 
 /-! ### Writes: `IndexSet` (the only element write), through `indexAssign` -/
 
+/-- Value of a hex digit. -/
+def hexVal (c : Char) : Nat :=
+  if '0' ≤ c ∧ c ≤ '9' then c.toNat - 48 else if 'a' ≤ c ∧ c ≤ 'f' then c.toNat - 87 else 0
+
+def unhex : List Char → List Nat
+  | a :: b :: rest => (hexVal a * 16 + hexVal b) :: unhex rest
+  | _ => []
+
+def digitsVal : List Nat → Nat → Option Nat
+  | [], acc => some acc
+  | d :: ds, acc => if 48 ≤ d ∧ d ≤ 57 then digitsVal ds (acc * 10 + (d - 48)) else none
+
+/-- `strconv.ParseInt(s, 10, 64)` on the wire form `#<hex>` (range errors are outside the model:
+the harness uses short strings): optional sign, then at least one decimal digit. -/
+def strToInt? (s : String) : Option Int :=
+  match unhex (s.toList.drop 1) with
+  | [] => none
+  | 45 :: (d :: ds) => (digitsVal (d :: ds) 0).map (fun n => - (n : Int))
+  | 43 :: (d :: ds) => (digitsVal (d :: ds) 0).map (fun n => (n : Int))
+  | ds => (digitsVal ds 0).map (fun n => (n : Int))
+
+/-- `Array.IndexSet` once the index is an int. -/
+def arrSet (h : Heap) (s off len : Nat) (n : Int) (v : Val) : Heap × Out :=
+  if n < 0 ∨ n ≥ (len : Int) then (h, .err .indexOutOfBounds)
+  else (h.setA s ((h.astore s).set (off + n.toNat) v), .done)
+
 /-- `dst.IndexSet(idx, v)`: returns the new heap and the outcome. Only `*Array` and `*Map` have it. -/
 def indexSet (h : Heap) (dst idx v : Val) : Heap × Out :=
   match dst with
@@ -206,12 +232,14 @@ def indexSet (h : Heap) (dst idx v : Val) : Heap × Out :=
     match h.obj r with
     | .arr true s off len _ =>
       match idx with
-      | .int n =>
-        if n < 0 ∨ n ≥ (len : Int) then (h, .err .indexOutOfBounds)
-        else (h.setA s ((h.astore s).set (off + n.toNat) v), .done)
+      | .int n => arrSet h s off len n v
+      | .str t =>                                            -- ToInt(String) = ParseInt
+        match strToInt? t with
+        | some n => arrSet h s off len n v
+        | none => (h, .err .invalidIndexType)
       | .undef => (h, .err .invalidIndexType)
       | .ref _ => (h, .err .invalidIndexType)
-      | _ => (h, .bad)                                       -- ToInt on strings/floats/…: outside the model
+      | .opq _ => (h, .bad)                                  -- ToInt on floats/chars/bools: outside the model
     | .map true s =>
       match keyOf idx with
       | .key k => (h.setM s (minsert k v (h.mstore s)), .done)
@@ -219,8 +247,7 @@ def indexSet (h : Heap) (dst idx v : Val) : Heap × Out :=
       | .unsupported => (h, .bad)
     | .dead => (h, .bad)
     | _ => (h, .err .notIndexAssignable)                     -- ImmutableArray, ImmutableMap, Error
-  | .opq _ => (h, .bad)
-  | _ => (h, .err .notIndexAssignable)
+  | _ => (h, .err .notIndexAssignable)                       -- scalars (ObjectImpl.IndexSet)
 
 /-- `indexAssign(dst, src, selectors)`, selectors in source order (outermost first). -/
 def indexAssign (h : Heap) (dst : Val) (sels : List Val) (src : Val) : Heap × Out :=
@@ -348,13 +375,18 @@ def eqMap (f : Val → Val → Option Bool) : List (String × Val) → List (Str
     else some false
   | _, _ => some false
 
-/-- `a.Equals(b)`; `none`: out of fuel or an opaque scalar was compared. -/
+/-- Opaque scalars whose `Equals` is equality of the canonical text (bool, char, bytes, time, non-NaN
+float); functions (never equal) and NaN are outside the model. Mixed comparisons (opaque against
+int/string/container) are `false`: the harness has no int equal to a float or char it uses. -/
+def opqComparable (s : String) : Bool :=
+  !(s.startsWith "(uf" || s.startsWith "(bf" || s.startsWith "(fn" || s == "(f 9221120237041090561)")
+
+/-- `a.Equals(b)`; `none`: out of fuel or an incomparable opaque scalar was compared. -/
 def equalsN : Nat → Heap → Val → Val → Option Bool
   | 0, _, _, _ => none
   | n + 1, h, a, b =>
     match a, b with
-    | .opq _, _ => none
-    | _, .opq _ => none
+    | .opq s, .opq t => if opqComparable s && opqComparable t then some (s == t) else none
     | .undef, .undef => some true
     | .int x, .int y => some (x == y)
     | .str x, .str y => some (x == y)
